@@ -14,6 +14,9 @@ type vFlight struct {
 	chunks []*chunkPayloadData
 }
 
+// vFlightSizes, when set, gives the payload size of each chunk written by vInFlight.
+var vFlightSizes []int
+
 // vInFlight writes n single-chunk messages on one stream and moves them to flight.
 func vInFlight(n int, pendingExtra bool) *vFlight {
 	vStub("setNewRTT")
@@ -23,6 +26,9 @@ func vInFlight(n int, pendingExtra bool) *vFlight {
 	f := &vFlight{a: a, s: s, n: n, base: a.cumulativeTSNAckPoint}
 	for i := 0; i < n; i++ {
 		sz := 1 + i // distinct sizes make the byte accounting sensitive to which chunk is released
+		if i < len(vFlightSizes) {
+			sz = vFlightSizes[i]
+		}
 		f.sizes = append(f.sizes, sz)
 		f.total += sz
 		_, werr := s.WriteSCTP(make([]byte, sz), PayloadTypeWebRTCBinary)
